@@ -70,6 +70,12 @@ type World struct {
 	// never becomes quiescent under frozen virtual time)
 	Budget   int64
 	OnBudget func()
+	// SerialTx: make SQLite's own serialisation of (BEGIN IMMEDIATE) transactions
+	// visible to the bubble.  A second transaction otherwise spins in SQLite's busy
+	// handler (real time, inside cgo) while the first sleeps its SeqTick in
+	// virtual time, and virtual time cannot move while a goroutine is running.
+	SerialTx bool
+	txTok    chan struct{}
 }
 
 // idGen is a deterministic io.Reader for uuid.SetRand: the n-th UUID is a hash
@@ -104,7 +110,7 @@ func Open() (*World, error) {
 	if err != nil {
 		return nil, err
 	}
-	w := &World{Dir: dir, ids: &idGen{}, SeqTick: true}
+	w := &World{Dir: dir, ids: &idGen{}, SeqTick: true, txTok: make(chan struct{}, 1)}
 	uuid.SetRand(w.ids)
 	vsql.SetHook(w.hook)
 	dsn := db.SQLiteDSN(filepath.Join(dir, "mc"), true, false)
@@ -143,6 +149,7 @@ func (w *World) hook(p vsql.Point) error {
 	}
 	extra := w.Extra
 	tick := w.SeqTick
+	serial := w.SerialTx
 	var fire func()
 	if w.Budget > 0 {
 		w.Budget--
@@ -151,6 +158,17 @@ func (w *World) hook(p vsql.Point) error {
 		}
 	}
 	w.logMu.Unlock()
+	if serial || len(w.txTok) > 0 {
+		switch {
+		case serial && (p.Kind == vsql.Begin || p.Kind == vsql.Stmt && !p.InTx):
+			w.txTok <- struct{}{}
+		case p.Kind == vsql.Committed || p.Kind == vsql.RolledBack || p.Kind == vsql.BeginFailed || p.Kind == vsql.StmtDone && !p.InTx:
+			select {
+			case <-w.txTok:
+			default:
+			}
+		}
+	}
 	if tick && (p.Kind == vsql.Stmt || p.Kind == vsql.Begin || p.Kind == vsql.Commit) {
 		time.Sleep(time.Microsecond)
 	}
@@ -176,6 +194,12 @@ func (w *World) ResetLog() {
 func (w *World) SetBudget(n int64, f func()) {
 	w.logMu.Lock()
 	w.Budget, w.OnBudget = n, f
+	w.logMu.Unlock()
+}
+
+func (w *World) SetSerialTx(on bool) {
+	w.logMu.Lock()
+	w.SerialTx = on
 	w.logMu.Unlock()
 }
 
